@@ -471,18 +471,29 @@ func init() {
 			name = "bitfield_ro"
 		}
 		a := []string{g.kw(name), g.key()}
-		for i := 0; i <= g.r.Intn(4); i++ {
+		n := 1 + g.r.Intn(4)
+		if ro {
+			n = 1 // more than one GET on BITFIELD_RO: known finding bitfield-ro-multi-get
+		}
+		for i := 0; i < n; i++ {
 			ty := g.pick("u1", "u4", "u8", "i8", "i5", "u16", "i16", "i32", "u63", "i64", "u7", "i3")
 			off := g.pick("0", "1", "3", "7", "8", "13", "#0", "#1", "#2", "20")
-			switch {
-			case ro || g.chance(0.35):
+			if ro || g.chance(0.35) {
 				a = append(a, g.kw("GET"), ty, off)
-			case g.chance(0.4):
-				a = append(a, g.kw("SET"), ty, off, g.pick(g.num(), "255", "256", "-129", "127", "128"))
-			case g.chance(0.6):
-				a = append(a, g.kw("INCRBY"), ty, off, g.pick(g.num(), "255", "-128", "1", "1", "-1"))
-			default:
+				continue
+			}
+			// the documented grammar puts OVERFLOW directly in front of a write operation
+			if g.chance(0.5) {
 				a = append(a, g.kw("OVERFLOW"), g.kw(g.pick("WRAP", "SAT", "FAIL")))
+			}
+			if g.chance(0.5) {
+				v := g.pick(g.num(), "255", "256", "-129", "127", "128")
+				if ty[0] == 'u' && v[0] == '-' {
+					v = v[1:] // a negative value for an unsigned field is outside the compared domain (DESIGN.md, C18)
+				}
+				a = append(a, g.kw("SET"), ty, off, v)
+			} else {
+				a = append(a, g.kw("INCRBY"), ty, off, g.pick(g.num(), "255", "-128", "1", "1", "-1"))
 			}
 		}
 		return a
